@@ -312,7 +312,7 @@ where
 
 pub fn judge_hist<'a, T>(h: &'a Hist, mk: &dyn Fn(&'a str) -> Option<T>) -> Option<Fail>
 where
-    T: PurlShape + Clone,
+    T: PurlShape + Clone + crate::exec::Reparse,
     T::Error: Debug,
 {
     let run = run_hist(h, mk)?;
@@ -325,7 +325,7 @@ where
 
 fn built<'a, T>(ctx: &mut Ctx, tp: &'static str, h: &'a Hist, mk: &dyn Fn(&'a str) -> Option<T>)
 where
-    T: PurlShape + Clone,
+    T: PurlShape + Clone + crate::exec::Reparse,
     T::Error: Debug,
 {
     let Some(run) = run_hist(h, mk) else { return };
